@@ -274,6 +274,9 @@ impl Slaac {
     /// Get the next time the SLAAC state must be polled for updates.
     pub(crate) fn poll_at(&self, now: Instant) -> Option<Instant> {
         match self.phase {
+            // Once all router solicitations have been sent nothing more happens at
+            // `retry_rs_at`; reporting it would leave a deadline in the past for ever.
+            Phase::Discovering | Phase::Start if self.num_solicitations == 0 => None,
             Phase::Discovering | Phase::Start => Some(self.retry_rs_at),
             Phase::Maintaining => {
                 let prefix_at = self.prefix.values().filter_map(|prefix_info| {
